@@ -13,7 +13,8 @@ THEOREMS = ["C13_push_returns_own_value", "C13_push_index_fresh", "C13_pushes_ke
 
 RULE = ("(sequential) sessions on an original, its clone and a clone of the clone: random sequences of make_ref / make_mut / lending through the "
         "instance's delegation helper (a `&self` provided method whose body calls a required method answered with make_ref) / `&mut self` provided "
-        "calls (AsMut path), each instance finally dropped normally or while its thread unwinds from a panic, with three value types "
+        "calls (AsMut path) / a late no_verify_in_drop(), each instance finally dropped normally, dropped while its thread unwinds from a panic, or (the original) "
+        "verified explicitly; the mock also holds one borrowed-return value configured with returns(), which lives until the last instance goes; three value types "
         "(two same-layout counted types and a zero-sized guard whose Drop is counted), lengths up to 40 (thorough: one run of 400; plus 5000 / 50000 values on a 64 KiB stack as a "
         "test of the iterative walk and drop); after EVERY step the harness re-reads the contents through ALL references it still holds and prints the number "
         "of live lent values; instances are dropped at the end, clones first. (concurrent) 2-8 threads lend values through one shared &Unimock under "
@@ -40,10 +41,14 @@ def seq_case(rng, maxlen):
                 ops.append(("m", ty, v))
             elif r < 0.93:
                 ops.append(("t",))
+            elif r < 0.96 and k == 0:
+                ops.append(("n",))          # no_verify_in_drop(), late: only legal on the original
             else:
                 ops.append(("l",))
         sessions.append(ops)
-    return {"kind": "seq", "sessions": sessions, "unwind": [rng.random() < 0.3 for _ in sessions]}
+    # how each instance finally goes: dropped, dropped while its thread unwinds, or (the original only) verify()
+    return {"kind": "seq", "sessions": sessions,
+            "unwind": [rng.choice(["drop", "drop", "unwind", "verify"] if j == 0 else ["drop", "drop", "unwind"]) for j in range(len(sessions))]}
 
 
 def thread_case(rng, nth, per, sched=None):
@@ -62,8 +67,11 @@ def harness_line(c, cid):
         parts = [f"case {cid} SEQ {len(c['sessions'])}"]
         for k, ops in enumerate(c["sessions"]):
             kind = "o" if k == 0 else "c"
-            if (c.get("unwind") or [False] * len(c["sessions"]))[k]:
+            how = (c.get("unwind") or ["drop"] * len(c["sessions"]))[k]
+            if how in (True, "unwind"):
                 kind = kind.upper()
+            elif how == "verify" and k == 0:
+                kind = "v"
             parts.append(kind + f" {len(ops)} " + " ".join(":".join(str(x) for x in o) for o in ops))
         return " ".join(parts)
     return " ".join([f"case {cid} TH {len(c['vals'])}"] + [f"{len(v)} " + " ".join(map(str, v)) for v in c["vals"]]
@@ -75,6 +83,7 @@ def coq_case(c):
         def op(o):
             if o[0] == "l": return "CLive"
             if o[0] == "t": return "CTouch"
+            if o[0] == "n": return "CNvid"
             return f"{ {'r': 'CRef', 'm': 'CMut', 'h': 'CHelp'}[o[0]] } {o[1]} {o[2]}"
         return "ChSeq [" + "; ".join("[" + "; ".join(op(o) for o in ops) + "]" for ops in c["sessions"]) + "]"
     return ("ChThreads [" + "; ".join("[" + "; ".join(map(str, v)) + "]" for v in c["vals"]) + "] ["
